@@ -34,6 +34,7 @@ SetupStep ==
     [] s[1] = "DeleteSub"  -> DeleteSub(s[2]) /\ UNCHANGED nSub
     [] s[1] = "DeleteItem" -> DeleteItem(s[2], s[3]) /\ UNCHANGED nSub
     [] s[1] = "Republish"  -> Republish(s[2], s[3]) /\ UNCHANGED nSub
+    [] s[1] = "ModifyItem" -> ModifyItem(s[2], s[3], s[4], s[5]) /\ UNCHANGED nSub
     [] s[1] = "Write"      -> Write(s[2], s[3]) /\ UNCHANGED nSub
 
 Free ==
@@ -49,6 +50,11 @@ Free ==
   \/ /\ "CreateItem" \in Acts
      /\ \E id \in SubIds, i \in ItemIds, n \in Nodes, qs \in QSizes, d \in Dolds, sm \in Samps :
           CreateItem(id, i, n, qs, d, "Reporting", sm)
+     /\ UNCHANGED <<nPub, nWrite, nTick, nSub>>
+  \/ /\ "ModifyItem" \in Acts
+     /\ \E id \in SubIds, i \in ItemIds, qs \in QSizes, d \in Dolds :
+          (id \in DOMAIN subs /\ i \in DOMAIN subs[id].items
+           /\ (subs[id].items[i].qsize # qs \/ subs[id].items[i].dold # d) /\ ModifyItem(id, i, qs, d))
      /\ UNCHANGED <<nPub, nWrite, nTick, nSub>>
   \/ /\ "DeleteItem" \in Acts /\ \E id \in SubIds, i \in ItemIds : DeleteItem(id, i) /\ UNCHANGED <<nPub, nWrite, nTick, nSub>>
   \/ /\ "Write" \in Acts /\ nWrite < MaxWrites
